@@ -63,8 +63,8 @@ class FuncInfo:
         if self.name.startswith("__"):
             return False
         last = self.module.name.rsplit(".", 1)[-1]
-        if self.cls is not None and self.cls.name.startswith("_") and not self.cls.name.startswith("__") and not self.name.startswith(("visit_", "call_")) and self.name not in ("visit", "generic_visit"):
-            return True  # a method of a private class
+        if self.cls is not None and self.cls.name.startswith("_") and not self.cls.name.startswith("__") and not self.cls.base_names:
+            return True  # a method of a private helper class (one without bases: not a visitor, not part of a hierarchy)
         return self.name.startswith("_") or (last.startswith("_") and not last.startswith("__") and self.cls is None)
 
     @property
